@@ -23,6 +23,7 @@ WILD = [
     'p((X / 3) \\ 2) :- q(X). p(X) :- q(X / 0).', 'p(X..Y) :- q(X, Y), not q(Y, X). :- p(X), X > 9223372036854775806.',
     '{p(X)} :- not not p(X). q(X) :- p(X), not p(X + 1).', 'p(-X) :- q(X). p(X - -1) :- q(X).',
     's :- p(X), q(Y), X * Y = 12. s :- not s.',
+    'p(X) :- q(X), X = 1..1.', 'p(X) :- q(X), X = 1..X. p(2..2).', 'p(X, Y) :- q(X), q(Y), X <= Y, Y <= X.',
     'p(9223372036854775807 + 1). q(X) :- p(X), X > 9223372036854775807.', 'p(9223372036854775807). q(-9223372036854775808 - 1).',
 ]
 COMBOS = [(dec, s, e) for dec in DECOMPOSITIONS for (s, e) in FLAGS]
